@@ -3,6 +3,7 @@ package c04
 import (
 	"fmt"
 	"math/big"
+	"strings"
 	"sync"
 	"sync/atomic"
 	"testing"
@@ -51,7 +52,16 @@ type bridgePeer struct {
 	done   chan struct{} // closed when the link is taken down (q itself is never closed: senders may still be running)
 	hold   time.Duration // nothing is delivered on this link before start+hold
 	closed atomic.Bool
+	kv     sync.Map
 }
+
+// Get / Set: the product's peer keeps these values in a concurrent map; mock.Peer uses a plain one, which the reactors'
+// goroutines would race on.
+func (p *bridgePeer) Get(k string) interface{} {
+	v, _ := p.kv.Load(k)
+	return v
+}
+func (p *bridgePeer) Set(k string, v interface{}) { p.kv.Store(k, v) }
 
 func (p *bridgePeer) down() {
 	if p.closed.CompareAndSwap(false, true) {
@@ -117,19 +127,54 @@ func realSwitch(r p2p.Reactor, bc p2p.Reactor) *p2p.Switch {
 	return sw
 }
 
+// draws records the values rapid chose for a case, so that the very same case can be executed again (a stall is only
+// reported if it happens every time the case is run).
+type draws struct {
+	t      *rapid.T
+	vals   []int
+	replay bool
+	pos    int
+}
+
+func (d *draws) next(f func() int) int {
+	if d.replay {
+		v := d.vals[d.pos]
+		d.pos++
+		return v
+	}
+	v := f()
+	d.vals = append(d.vals, v)
+	return v
+}
+func (d *draws) intRange(lo, hi int, label string) int {
+	return d.next(func() int { return rapid.IntRange(lo, hi).Draw(d.t, label) })
+}
+func (d *draws) sampled(from []int, label string) int {
+	return d.next(func() int { return rapid.SampledFrom(from).Draw(d.t, label) })
+}
+func (d *draws) boolean(label string) bool {
+	return d.next(func() int {
+		if rapid.Bool().Draw(d.t, label) {
+			return 1
+		}
+		return 0
+	}) == 1
+}
+
 func TestRealReactors(t *testing.T) {
 	stall := time.Duration(ev.Scale("REALNET_STALL_S", 120)) * time.Second
 	cap := time.Duration(ev.Scale("REALNET_CAP_S", 420)) * time.Second
+	caseText := ""
 	cache := func() *blockchain.CacheConfig {
 		return &blockchain.CacheConfig{TrieCleanLimit: 0, TrieDirtyLimit: 256, TrieTimeLimit: 5 * time.Minute, SnapshotLimit: 0}
 	}
-	rapid.Check(t, func(t *rapid.T) {
-		n := rapid.SampledFrom([]int{2, 3, 4, 4, 4, 5}).Draw(t, "n")
+	body := func(t *rapid.T, d *draws) (stalled string) {
+		n := d.sampled([]int{2, 3, 4, 4, 4, 5}, "n")
 		powers := make([]int64, n)
 		for i := range powers {
-			powers[i] = int64(rapid.SampledFrom([]int{15, 15, 30}).Draw(t, "p"))
+			powers[i] = int64(d.sampled([]int{15, 15, 30}, "p"))
 		}
-		target := uint64(rapid.IntRange(3, 6).Draw(t, "heights"))
+		target := uint64(d.intRange(3, 6, "heights"))
 		g, keys := netsim.MakeGenesis(powers, 2)
 		text := fmt.Sprintf("real reactors: powers=%v target height %d", powers, target)
 		nodes := make([]*rnode, n)
@@ -205,6 +250,9 @@ func TestRealReactors(t *testing.T) {
 					case <-p.done:
 						return
 					case w := <-p.q:
+						if !back.IsRunning() || !p.IsRunning() {
+							continue // the switch on one side has dropped this peer: the connection is gone (see the watch loop)
+						}
 						func() {
 							defer func() {
 								// MConnection's recvRoutine recovers a panic of Receive and drops the peer; here it is a
@@ -238,14 +286,14 @@ func TestRealReactors(t *testing.T) {
 		// empty database in fast-sync mode, fetches the chain through the product's block-sync reactor, switches over to
 		// consensus and has to keep up from there
 		joiner, joinAt, joined := -1, uint64(0), false
-		if n >= 3 && rapid.IntRange(0, 2).Draw(t, "latejoin") == 0 {
-			cand := rapid.IntRange(0, n-1).Draw(t, "joiner")
+		if n >= 3 && d.intRange(0, 2, "latejoin") == 0 {
+			cand := d.intRange(0, n-1, "joiner")
 			var total int64
 			for _, p := range powers {
 				total += p
 			}
 			if (total-powers[cand])*3 > total*2 {
-				joiner, joinAt = cand, uint64(rapid.IntRange(2, 5).Draw(t, "joinat"))
+				joiner, joinAt = cand, uint64(d.intRange(2, 5, "joinat"))
 				text += fmt.Sprintf(" node %d joins by block sync once the others are at height %d;", joiner, joinAt)
 			}
 		}
@@ -265,11 +313,11 @@ func TestRealReactors(t *testing.T) {
 		}
 		slow := 0
 		drawHold := func(i, j int) time.Duration {
-			if rapid.IntRange(0, 2).Draw(t, "slow") == 0 {
+			if d.intRange(0, 2, "slow") == 0 {
 				return 0
 			}
 			slow++
-			h := time.Duration(rapid.SampledFrom([]int{20, 100, 400, 1500}).Draw(t, "hold")) * time.Millisecond
+			h := time.Duration(d.sampled([]int{20, 100, 400, 1500}, "hold")) * time.Millisecond
 			text += fmt.Sprintf(" link %d->%d holds back for %v;", i, j, h)
 			return h
 		}
@@ -286,10 +334,10 @@ func TestRealReactors(t *testing.T) {
 
 		// optionally a few signed transfers sit in one node's pool, so that some blocks carry transactions
 		withTxs := 0
-		if rapid.Bool().Draw(t, "txs") {
-			at := rapid.IntRange(0, n-1).Draw(t, "txnode")
+		if d.boolean("txs") {
+			at := d.intRange(0, n-1, "txnode")
 			if rn := nodeAt(at); rn != nil {
-				for k := uint64(0); k < uint64(rapid.IntRange(1, 5).Draw(t, "ntx")); k++ {
+				for k := uint64(0); k < uint64(d.intRange(1, 5, "ntx")); k++ {
 					tx, err := types.SignTx(types.HomesteadSigner{}, types.NewTransaction(k, common.BytesToAddress([]byte{0xc0, 0x04}), big.NewInt(1000), 40000, big.NewInt(1), nil), netsim.Key(100))
 					if err == nil && rn.nd.TxPool.AddLocal(tx) == nil {
 						withTxs++
@@ -300,12 +348,12 @@ func TestRealReactors(t *testing.T) {
 		}
 		// optionally one node is stopped and started again on its own database and log while the others go on
 		restartNode, restartAfter, restarted := -1, time.Duration(0), false
-		if rapid.Bool().Draw(t, "restart") {
-			restartNode = rapid.IntRange(0, n-1).Draw(t, "restartnode")
+		if d.boolean("restart") {
+			restartNode = d.intRange(0, n-1, "restartnode")
 			if restartNode == joiner {
 				restartNode = (restartNode + 1) % n
 			}
-			restartAfter = time.Duration(rapid.SampledFrom([]int{30, 150, 600}).Draw(t, "restartafter")) * time.Millisecond
+			restartAfter = time.Duration(d.sampled([]int{30, 150, 600}, "restartafter")) * time.Millisecond
 			text += fmt.Sprintf(" node %d restarts after %v;", restartNode, restartAfter)
 		}
 		doRestart := func(k int) {
@@ -364,15 +412,39 @@ func TestRealReactors(t *testing.T) {
 		}
 		maxRound := uint32(0)
 		verdict := ""
+		dropped := 0
 		for verdict == "" {
 			if restartNode >= 0 && !restarted && time.Since(start) > restartAfter {
 				restarted = true
 				msg, frame := ev.Try(func() { doRestart(restartNode) })
 				if msg != "" {
 					ev.Violation(t, "panic:"+frame, text, "restart of node %d panicked: %s", restartNode, msg)
-					return
+					return ""
 				}
 				lastChange[restartNode] = time.Now()
+			}
+			// a switch that drops a peer (StopPeerForError: some reactor reported it) ends the connection; a node redials
+			// its persistent peers, so the pair is connected again with fresh peer objects on both sides
+			for i := 0; i < n; i++ {
+				for j := i + 1; j < n; j++ {
+					a, b := peers[i][j], peers[j][i]
+					if a == nil || b == nil || a.closed.Load() || b.closed.Load() || nodeAt(i) == nil || nodeAt(j) == nil {
+						continue
+					}
+					if !a.IsRunning() || !b.IsRunning() {
+						a.down()
+						b.down()
+						for _, e := range []struct {
+							at int
+							p  *bridgePeer
+						}{{i, a}, {j, b}} {
+							nodeAt(e.at).conR.RemovePeer(e.p, "connection ended")
+							nodeAt(e.at).bcR.RemovePeer(e.p, "connection ended")
+						}
+						dropped++
+						link(i, j, 0, 0)
+					}
+				}
 			}
 			fp := ""
 			minH := uint64(1 << 62)
@@ -390,7 +462,7 @@ func TestRealReactors(t *testing.T) {
 					msg, frame := ev.Try(func() { doJoin(joiner) })
 					if msg != "" {
 						ev.Violation(t, "panic:"+frame, text, "start of the late joiner panicked: %s", msg)
-						return
+						return ""
 					}
 					lastChange[joiner] = time.Now()
 				}
@@ -422,6 +494,21 @@ func TestRealReactors(t *testing.T) {
 				// grow for this long (blocks take a fraction of a second here) is not coming back
 				if time.Since(lastChange[i]) > stall {
 					verdict = fmt.Sprintf("node %d has not committed anything for %v (height/round/step per node: %s)", i, stall, fp)
+					// what the stalled node holds, and what its peers believe about it
+					if rn := nodeAt(i); rn != nil {
+						rs := rn.nd.CS.GetRoundState()
+						verdict += fmt.Sprintf("\n node %d: commitRound=%d proposal=%v block=%v parts=%s locked=%v valid=%v", i, rs.CommitRound, rs.Proposal != nil, rs.ProposalBlock != nil, rs.ProposalBlockParts.StringShort(), rs.LockedBlock != nil, rs.ValidBlock != nil)
+						for j := 0; j < n; j++ {
+							if pj := peers[j][i]; pj != nil {
+								if ps, ok := pj.Get(types.PeerStateKey).(*consensus.PeerState); ok {
+									prs := ps.GetRoundState()
+									verdict += fmt.Sprintf("\n node %d's view of it: %d/%d/%v partsHeader=%v parts=%v proposal=%v catchupCommitRound=%d running=%v", j, prs.Height, prs.Round, prs.Step, prs.ProposalBlockPartsHeader, prs.ProposalBlockParts, prs.Proposal, prs.CatchupCommitRound, pj.IsRunning())
+								} else {
+									verdict += fmt.Sprintf("\n node %d holds no peer state for it (running=%v)", j, pj.IsRunning())
+								}
+							}
+						}
+					}
 				}
 			}
 			if maxRound > 150 {
@@ -429,23 +516,19 @@ func TestRealReactors(t *testing.T) {
 			}
 			if v := recvPanics.Load(); v != nil {
 				ev.Violation(t, "realnet.receive-panicked", text, "%s", v.(string))
-				return
+				return ""
 			}
 			if verdict == "" && time.Since(start) > cap {
 				// every node is still committing, only slowly (a starved machine): no verdict on this case
 				ev.Class("real-reactors:inconclusive-slow")
 				ev.Note("real-reactors inconclusive", fmt.Sprintf("did not reach height %d within %v: %s", target, cap, fp))
-				return
+				return ""
 			}
 			time.Sleep(10 * time.Millisecond)
 		}
 		if verdict != "" {
-			key := "realnet.stalled"
-			if maxRound > 150 {
-				key = "realnet.livelock"
-			}
-			ev.Violation(t, key, text, "the product's reactors, routines and timers together stopped making progress: %s", verdict)
-			return
+			caseText = text
+			return verdict // judged by the caller: only a case that stalls every time it is run is reported
 		}
 		// agreement on everything every node has
 		for h := uint64(1); h <= target; h++ {
@@ -469,6 +552,9 @@ func TestRealReactors(t *testing.T) {
 		if withTxs > 0 {
 			ev.Class("real-reactors:blocks-with-transactions")
 		}
+		if dropped > 0 {
+			ev.Class("real-reactors:a-switch-dropped-a-peer-and-the-pair-reconnected")
+		}
 		// same application state everywhere at the last common height
 		for i := 1; i < n; i++ {
 			a, b := nodeAt(0).nd.BOps.LoadBlock(target), nodeAt(i).nd.BOps.LoadBlock(target)
@@ -476,5 +562,29 @@ func TestRealReactors(t *testing.T) {
 				ev.Violation(t, "realnet.apphash", text, "nodes 0 and %d hold different application hashes in block %d", i, target)
 			}
 		}
+		return ""
+	}
+	rapid.Check(t, func(t *rapid.T) {
+		d := &draws{t: t}
+		verdict := body(t, d)
+		if verdict == "" {
+			return
+		}
+		// the case stalled. A broken send condition or hand-over stalls every time; a stall that depends on how the
+		// goroutines happened to be scheduled does not. Run the same case (same drawn values) twice more.
+		first := verdict
+		for again := 0; again < 2; again++ {
+			r := &draws{t: t, vals: d.vals, replay: true}
+			if verdict = body(t, r); verdict == "" {
+				ev.Class("real-reactors:stall-not-reproduced-on-rerun")
+				ev.Note("real-reactors stall seen once, not on re-run", caseText+" => "+first)
+				return
+			}
+		}
+		key := "realnet.stalled"
+		if strings.Contains(verdict, "more than 150 rounds") {
+			key = "realnet.livelock"
+		}
+		ev.Violation(t, key, caseText, "the product's reactors, routines and timers together stopped making progress, three runs out of three: %s", verdict)
 	})
 }
